@@ -1,0 +1,20 @@
+//go:build verif
+
+package casket
+
+import "sync"
+
+// Test-only exports for the /verif harness (property C16: lifecycle callbacks).
+// Add-only; compiled only with the "verif" build tag.
+
+// VerifC16ExecuteShutdownCallbacks is what the SIGINT / SIGTERM handlers run.
+func VerifC16ExecuteShutdownCallbacks(signame string) int {
+	return executeShutdownCallbacks(signame)
+}
+
+// VerifC16AllShutdownCallbacks runs the shutdown callbacks of every instance.
+func VerifC16AllShutdownCallbacks() []error { return allShutdownCallbacks() }
+
+// VerifC16ResetShutdownOnce re-arms the per-process once-guard so that one test
+// process can play several process lifetimes one after the other.
+func VerifC16ResetShutdownOnce() { shutdownCallbacksOnce = sync.Once{} }
